@@ -191,6 +191,8 @@ def classify(spec, kind, text=""):
         if m:
             phrase = re.sub(r"[^A-Za-z ]", "", m.group(2))
             phrase = "-".join(phrase.split()[:5])
+            if m.group(2).startswith("Combiner fields") and "are not in the" in m.group(2):
+                phrase = "combiner-fields-not-in-the-splitter"  # the message lists the field names
             kind = f"{kind}:{m.group(1)}:{phrase}"
     hits = origin_paths(spec)
     zipcomb = any("combine" in nd and isinstance(nd.get("split"), dict) and "T" in nd["split"] for nd in spec["nodes"])
